@@ -15,7 +15,7 @@ Mutants (mutants/C12/*.diff; output of bin/mutant-run in mutants/C12/RESULT.txt)
   nsdecl-twice                    explicit xmlns attribute no longer suppressed after the fix-up declared the prefix
   cdata-unrep-no-resume           procUnrepCharInCdataSection keeps writing references after the unrepresentable run ended
   xml11-controls-unescaped        XMLFormatter XML 1.1 control-character test inverted (binder F)
-  cdata-end-marker-only-at-start  split-cdata-sections=false: ']]>' reported only at the start of the value
+  cdata-end-marker-not-at-start   split-cdata-sections=false: ']]>' at the very start of the value no longer reported (!= -1 became > 0)
 Genuine defects found on the unchanged tree are listed in known_findings.d/C12.json (17 entries).
 """
 import json
@@ -46,8 +46,9 @@ GEN = ["rich10", "rich11", "struct", "ns", "names"]
 def _run_gen(out, name, tier, exe, results, workers):
     cfg = "SerializerGen.%s.%s.cfg" % (name, tier)
     try:
-        p = C.Piper([exe, "t", tier], timeout=3000, nproc=4 if name.startswith("rich") else 2)
-        r = C.tlc("SerializerGen", cfg, workers=workers, coverage=True, on_chunk=p.feed_chunk, timeout=3000, heap="8g")
+        # timeouts: the largest configuration needs ~5 CPU-minutes; the slack is for a machine shared by many builders
+        p = C.Piper([exe, "t", tier], timeout=13000, nproc=4 if name.startswith("rich") else 2)
+        r = C.tlc("SerializerGen", cfg, workers=workers, coverage=True, on_chunk=p.feed_chunk, timeout=12000, heap="8g")
         p.close()
         results[name] = (r, p, None)
     except Exception as e:      # reported by the caller (thread)
@@ -88,6 +89,11 @@ def run(out, tier):
     # 1+2. one TLC run per configuration both checks the listed property on the specification (INVARIANTS of the cfg) and
     # emits every finished case for the binder.  The two large configurations run first, the small ones next to them.
     groups = [["rich10", "struct"], ["rich11", "ns", "names"]]
+    # development aid (used to demonstrate mutants quickly on a loaded machine): VERIF_C12_ONLY=rich11,fmt restricts the run to
+    # the named configurations; a disagreement found by a subset is found by the full run, which executes the same cases and more
+    only = [x for x in os.environ.get("VERIF_C12_ONLY", "").split(",") if x]
+    gen = [g for g in GEN if not only or g in only]
+    groups = [[g for g in grp if g in gen] for grp in groups]
     for grp in groups:
         ths = []
         for name in grp:
@@ -103,7 +109,7 @@ def run(out, tier):
     mm = {}
     compared = 0
     samples = []
-    for name in GEN:
+    for name in gen:
         r, p, e = results[name]
         if e is not None:
             if isinstance(e, C.InfraError):
@@ -132,21 +138,26 @@ def run(out, tier):
     if never:
         C.log("specification actions never taken:", never)
     # 3. XMLFormatter alone
-    pf = C.Piper([exe, "f", tier], timeout=1200, nproc=2)
-    rf = C.tlc("SerializerFmt", "SerializerFmt.%s.cfg" % tier, workers=4, on_chunk=pf.feed_chunk, timeout=1200, heap="4g")
-    pf.close()
-    cntf, summf = _collect(out, "fmt", rf, pf, "SerializerFmt")
+    if not only or "fmt" in only:
+        pf = C.Piper([exe, "f", tier], timeout=9000, nproc=2)
+        rf = C.tlc("SerializerFmt", "SerializerFmt.%s.cfg" % tier, workers=4, on_chunk=pf.feed_chunk, timeout=8000, heap="4g")
+        pf.close()
+        cntf, summf = _collect(out, "fmt", rf, pf, "SerializerFmt")
+    else:
+        pf, rf, cntf = None, C.TlcResult(), {}
     cov["states"] = states + rf.distinct
     cov["transitions"] = trans + rf.generated
     cov["spec_configs"] = per
     cov["spec_action_coverage"] = {a: actions.get(a, [0, 0]) for a in spec_actions}
     cov["spec_actions_never_taken"] = never
-    cov["checker_cmd"] = "; ".join(per[n]["cmd"] for n in GEN)
+    cov["checker_cmd"] = "; ".join(per[n]["cmd"] for n in gen)
+    if only:
+        cov["restricted_to"] = only
     cov["T"] = dict(cases=cases, serialisations_compared=compared, mismatch_classes=mm)
     cov["F"] = dict(cases=cntf.get("cases", 0), formatBuf_calls=cntf.get("fmt", 0), spec_check=rf.summary(),
                     modes={k[5:]: v for k, v in cntf.items() if k.startswith("mode:")})
     cov["traces_validated_against_impl"] = cases + cntf.get("cases", 0)
-    cov["samples"] = samples[:3] + [C.decode_tlc_json(s) for s in pf.samples[1:2]]
+    cov["samples"] = samples[:3] + ([C.decode_tlc_json(s) for s in pf.samples[1:2]] if pf else [])
     cov["exhaustive"] = True
     cov["evaluations"] = compared + cntf.get("fmt", 0)
     cov["distinct_nontrivial"] = cases + cntf.get("cases", 0)
